@@ -18,10 +18,12 @@ MAX_BLOCKS = 6000
 
 
 def load_known():
+    """{path: [impl type, signature]} of the functions of the pinned tree"""
     p = os.path.join(HERE, "known_fns.json")
     if not os.path.exists(p):
         return None
-    return set(json.load(open(p)))
+    k = json.load(open(p))
+    return k if isinstance(k, dict) else {n: ["", ""] for n in k}
 
 
 def _callee_path(term):
@@ -64,6 +66,19 @@ def _shift(x, loff, boff, poff, cmap):
     for key, v in x.items():
         if isinstance(v, (dict, list)):
             _shift(v, loff, boff, poff, cmap)
+
+
+def _rename(x, m):
+    """replace locals according to m inside a JSON fragment (in place)"""
+    if isinstance(x, list):
+        for v in x:
+            _rename(v, m)
+    elif isinstance(x, dict):
+        if "l" in x and isinstance(x["l"], int) and x["l"] in m and ("p" in x or x.get("k") in ("live", "dead", "index")):
+            x["l"] = m[x["l"]]
+        for v in x.values():
+            if isinstance(v, (dict, list)):
+                _rename(v, m)
 
 
 def _shift_term(t, loff, boff, poff, cmap, unwind_to):
@@ -168,24 +183,36 @@ def _inline_one(F, H, bi, serial, all_bodies, new_bodies, argmap=None):
                     arms = {"Ok": cont, "Err": brk} if is_res else {"Some": cont, "None": brk}
                     chain_c = [tgt, tt["target"]]
 
+    def fresh_like(l_):
+        fm["locals"].append(copy.deepcopy(fm["locals"][l_]))
+        fm["locals"][-1].pop("name", None)
+        return len(fm["locals"]) - 1
+
     def copy_caller_chain(variant):
-        """copies of the caller's test blocks whose switch is resolved for `variant`; returns the entry block of the copy"""
+        """copies of the caller's test blocks whose switch is resolved for `variant`, working on locals of their own (the result slot
+        and the `branch` result get one definition per return site, so their provenance stays exact); returns (entry block, slot)"""
         arm = arms.get(variant)
-        if arm is None:
-            return tgt
+        ren = {dest["l"]: fresh_like(dest["l"])}
+        if len(chain_c) == 2:
+            xl = blocks[chain_c[0]]["term"]["dest"]["l"]
+            ren[xl] = fresh_like(xl)
         first = None
         prev = None
         for k_, cb_ in enumerate(chain_c):
             nb_ = copy.deepcopy(blocks[cb_])
+            _rename(nb_["stmts"], ren)
+            _rename(nb_["term"], ren)
             idx = new_block(nb_["stmts"], nb_["term"], nb_.get("cleanup", False))
             if prev is not None:
                 blocks[prev]["term"]["target"] = idx
             if first is None:
                 first = idx
             prev = idx
-        last = blocks[prev]
-        last["term"] = goto(arm)
-        return first
+        # hand the values back to the names the arms read
+        back = [{"k": "assign", "pl": {"l": o_, "p": []}, "rv": {"k": "use", "op": {"k": "move", "pl": {"l": n_, "p": []}}}, "line": line} for o_, n_ in ren.items()]
+        tail = new_block(back, goto(arm))
+        blocks[prev]["term"] = goto(tail)
+        return first, ren[dest["l"]]
     # ---- return sites of the helper with a statically known variant
     def assigned_variant(blk):
         v = None
@@ -203,11 +230,11 @@ def _inline_one(F, H, bi, serial, all_bodies, new_bodies, argmap=None):
         return v
     generic_landing = None
 
-    def landing_for(variant):
+    def landing_for(variant, src=None):
         nonlocal generic_landing
         if arms is not None and variant in arms and arms[variant] is not None:
-            entry = copy_caller_chain(variant)
-            return new_block([assign_dest()], goto(entry))
+            entry, slot = copy_caller_chain(variant)
+            return new_block([{"k": "assign", "pl": {"l": slot, "p": []}, "rv": {"k": "use", "op": {"k": "move", "pl": {"l": ret_l if src is None else src, "p": []}}}, "line": line}], goto(entry))
         if generic_landing is None:
             generic_landing = new_block([assign_dest()], goto(tgt)) if tgt is not None else new_block([], {"k": "unreachable", "line": line, "exp": False})
         return generic_landing
@@ -219,47 +246,71 @@ def _inline_one(F, H, bi, serial, all_bodies, new_bodies, argmap=None):
             v = assigned_variant(A)
             if v is None or v == "?" or v not in arms:
                 continue
+            def take_own():
+                """the value this site returns gets a local of its own (one definition: exact provenance downstream)"""
+                own_ = fresh_like(ret_l)
+                for st in A["stmts"]:
+                    if st["k"] == "assign" and st["pl"]["l"] == ret_l and not st["pl"]["p"]:
+                        st["pl"]["l"] = own_
+                if A["term"].get("k") == "call" and A["term"]["dest"]["l"] == ret_l and not A["term"]["dest"]["p"]:
+                    A["term"]["dest"]["l"] = own_
+                return own_
             if A["term"].get("k") == "return":
-                A["term"] = goto(landing_for(v))
+                own = take_own()
+                A["term"] = goto(landing_for(v, own))
                 continue
-            nxt = A["term"].get("target")
-            if not isinstance(nxt, int) or A["term"].get("k") not in ("goto", "call", "drop"):
+            kA = A["term"].get("k")
+            if kA not in ("goto", "call", "drop", "switch"):
                 continue
-            # follow the straight tail (drops / gotos) to the return and give this site its own copy of it
-            tail = []
-            cur = nxt
+
+            def succs(t_):
+                return [t_.get(k_) for k_ in ("target", "otherwise") if isinstance(t_.get(k_), int)] + [tg for _, tg in t_.get("targets", [])]
+            # the part of the helper that runs after this assignment (scope-end drops, drop-flag tests) up to its return: this site
+            # gets a copy of its own, ending in its own landing
+            region = []
+            stack_ = [x for x in succs(A["term"])]
             ok_ = True
-            while True:
-                if cur not in hrange or len(tail) > 16:
+            seen_ = set()
+            while stack_:
+                cur = stack_.pop()
+                if cur in seen_:
+                    continue
+                seen_.add(cur)
+                if cur not in hrange or len(seen_) > 80 or cur == ai:
                     ok_ = False
                     break
                 B = blocks[cur]
-                if any(st["k"] == "assign" and st["pl"]["l"] == ret_l for st in B["stmts"]):
+                if any(st["k"] == "assign" and st["pl"]["l"] == ret_l for st in B["stmts"]) or \
+                        (B["term"].get("k") == "call" and B["term"]["dest"]["l"] == ret_l):
                     ok_ = False
                     break
-                tail.append(cur)
-                k_ = B["term"].get("k")
-                if k_ == "return":
-                    break
-                if k_ in ("goto", "drop") and isinstance(B["term"].get("target"), int):
-                    cur = B["term"]["target"]
-                    continue
-                ok_ = False
-                break
-            if not ok_:
+                region.append(cur)
+                if B["term"].get("k") != "return":
+                    stack_ += succs(B["term"])
+            if not ok_ or not region or not any(blocks[x]["term"].get("k") == "return" for x in region):
                 continue
-            prev = None
-            first = None
-            for cb_ in tail:
+            own = take_own()
+            land = landing_for(v, own)
+            remap = {}
+            for cb_ in region:
                 nb_ = copy.deepcopy(blocks[cb_])
-                idx = new_block(nb_["stmts"], nb_["term"], False)
-                if prev is not None:
-                    blocks[prev]["term"]["target"] = idx
-                if first is None:
-                    first = idx
-                prev = idx
-            blocks[prev]["term"] = goto(landing_for(v))
-            A["term"]["target"] = first
+                remap[cb_] = new_block(nb_["stmts"], nb_["term"], False)
+            for cb_ in region:
+                t_ = blocks[remap[cb_]]["term"]
+                if t_.get("k") == "return":
+                    blocks[remap[cb_]]["term"] = goto(land)
+                    continue
+                for k_ in ("target", "otherwise"):
+                    if isinstance(t_.get(k_), int) and t_[k_] in remap:
+                        t_[k_] = remap[t_[k_]]
+                if "targets" in t_:
+                    t_["targets"] = [[v_, remap.get(tg, tg)] for v_, tg in t_["targets"]]
+            tA = A["term"]
+            for k_ in ("target", "otherwise"):
+                if isinstance(tA.get(k_), int) and tA[k_] in remap:
+                    tA[k_] = remap[tA[k_]]
+            if "targets" in tA:
+                tA["targets"] = [[v_, remap.get(tg, tg)] for v_, tg in tA["targets"]]
     # every remaining return of the helper goes to the generic landing
     for ai in hrange:
         if blocks[ai]["term"].get("k") == "return":
@@ -275,6 +326,25 @@ def _inline_one(F, H, bi, serial, all_bodies, new_bodies, argmap=None):
         for cl, rv in argmap:
             blk["stmts"].append({"k": "assign", "pl": {"l": loff + cl, "p": []}, "rv": copy.deepcopy(rv), "line": line})
     blk["term"] = goto(boff)
+
+
+def _retire_unreachable(F):
+    """blocks no path reaches any more (the caller's original test of a helper's result, once every return site has its own copy)
+    are marked as cleanup blocks: every analysis skips those"""
+    blocks = F["mir"]["blocks"]
+    seen = {0}
+    stack = [0]
+    while stack:
+        b = blocks[stack.pop()]
+        t = b["term"]
+        succ = [t.get(k_) for k_ in ("target", "unwind", "otherwise") if isinstance(t.get(k_), int)] + [tg for _, tg in t.get("targets", [])]
+        for x in succ:
+            if x not in seen and 0 <= x < len(blocks):
+                seen.add(x)
+                stack.append(x)
+    for i, b in enumerate(blocks):
+        if i not in seen and not b.get("cleanup"):
+            b["cleanup"] = True
 
 
 def _closure_of_operand(F, op, depth=0):
@@ -309,10 +379,25 @@ def inline_helpers(j, known=None):
     bodies = j["bodies"]
     by_path = {b["path"]: b for b in bodies}
     cand = {}
+    # a function of the pinned tree that was merely renamed keeps its place (same impl type, same signature, old name gone): only
+    # functions that are new to the program are normalised away
+    present = {b["path"] for b in bodies if b["kind"] != "closure"}
+    pool = {}
+    for n_, (impl_, sig_) in known.items():
+        if n_ not in present and sig_:
+            pool[(impl_, sig_)] = pool.get((impl_, sig_), 0) + 1
     for b in bodies:
         if b["kind"] == "closure" or not b.get("file", "").startswith("src/"):
             continue
         if b["path"] in known or b.get("pub") or b.get("impl_trait"):
+            continue
+        key_ = (b.get("impl_adt") or b.get("impl_self") or "", b.get("sig") or "")
+        if pool.get(key_, 0) > 0:
+            pool[key_] -= 1
+            continue
+        if b["mir"]["locals"][0]["ty"] == "bool":
+            # predicates stay calls: the rules read `p(x) == true` through the predicate's summary (conds.expand_predicates), which is
+            # more precise than a spliced body whose answers meet in one result slot
             continue
         if b.get("name") in ("main",) or "::tests::" in b["path"] or b["path"].startswith("tests::"):
             continue
@@ -428,6 +513,8 @@ def inline_helpers(j, known=None):
                 did = True
             if not did:
                 break
+        if len(F["mir"]["blocks"]) > n0:
+            _retire_unreachable(F)
         return new_bodies
     # bottom-up: first the helpers themselves (and their closures), then everybody else
     for p in order:
